@@ -361,6 +361,21 @@ def apply_op(w, op):
                     getattr(q, deeper[1]).to_er7()
             else:
                 proxy.to_er7()
+        elif kind == 'move':
+            # the child ELEMENT of another element (not a copy of it) assigned by name or by index: it leaves the other element
+            # and replaces the addressed repetition in place
+            i = op['i'] if op.get('by') == 'index' else 0
+            if single and not (-len(reps) <= i < len(reps)) and reps:
+                return [], 'skipped'
+            child = getattr(w.other, name)[0]
+            if op.get('by') == 'index':
+                getattr(el, name)[i] = child
+            else:
+                setattr(el, name, child)
+            _model_set(w, name, i, vals[-1])
+            if any(c is child for c in w.other.children):
+                return [('C09-moved-child-still-listed-by-its-previous-parent', '%s: %r' % (name, child))], kind
+            setattr(w.other, name, vals[-1])        # the other element as it was, for the operations that follow
         elif kind == 'copy':
             src = getattr(w.other, name)
             donor_before = w.other.to_er7()
@@ -423,12 +438,12 @@ def check(case, acc=None):
     for n, op in enumerate(case['ops']):
         many = any(len(r) >= 2 for r in w.model.values())
         vs, kind = apply_op(w, op)
-        if many and kind in ('set', 'setidx', 'set_element', 'set_datatype', 'del', 'delidx', 'remove', 'copy'):
+        if many and kind in ('set', 'setidx', 'set_element', 'set_datatype', 'del', 'delidx', 'remove', 'copy', 'move'):
             nontrivial = True
         vs = vs or compare(w)
         if vs:
             case['_nontrivial'] = nontrivial
-            kindtag = 'replace' if kind in ('set', 'setidx', 'set_element', 'copy') else kind
+            kindtag = 'replace' if kind in ('set', 'setidx', 'set_element', 'copy', 'move') else kind
             return [('%s:%s:%s' % (s, case['cell']['kind'], kindtag), 'after step %d %r: %s' % (n + 1, op, d)) for s, d in vs[:1]]
     case['_nontrivial'] = nontrivial
     return []
@@ -535,7 +550,7 @@ def cells(draw, versions):
     return field_cell(v, fname, ref, picks)
 
 
-OPS = ('set', 'setidx', 'set_element', 'add', 'add_child', 'del', 'delidx', 'remove', 'copy', 'read', 'read', 'set_datatype', 'set_at')
+OPS = ('set', 'setidx', 'set_element', 'add', 'add_child', 'del', 'delidx', 'remove', 'copy', 'read', 'read', 'set_datatype', 'set_at', 'move')
 
 
 @st.composite
@@ -547,8 +562,10 @@ def op_for(draw, cell):
         op['spell'] = draw(st.sampled_from(SPELLS))
     if kind == 'set_datatype':
         op['bad'] = draw(st.sampled_from([0, 0, 1, 2]))
-    if kind in ('setidx', 'delidx', 'remove', 'set_at'):
+    if kind in ('setidx', 'delidx', 'remove', 'set_at', 'move'):
         op['i'] = draw(st.integers(-4, 3))
+    if kind == 'move':
+        op['by'] = draw(st.sampled_from(['name', 'index']))
     return op
 
 
